@@ -637,7 +637,7 @@ class CaseResult(dict):
 
 
 def explore(fn, params, profile="fp", budget_s=600.0, max_paths=200000, oblig_timeout_s=60.0, portfolio=False,
-            validate_paths=1, fmod_K=3, case_name="", known=None, stop_on_violation=True, separate=False, fmod_fork=False, argsort_mode="fork", incremental_discharge=False, abstract_mul=False):
+            validate_paths=2, fmod_K=3, case_name="", known=None, stop_on_violation=True, separate=False, fmod_fork=False, argsort_mode="fork", incremental_discharge=False, abstract_mul=False):
     """Explore every path of harness fn(P, **params); discharge the obligations of every path.
 
     Returns a dict with paths / obligations / discharged / violations (each replayed) / inconclusive / stats."""
